@@ -44,7 +44,7 @@ package utils
 //@ define isMSM(t) = isMSM4(t) || isMSM7(t)
 //@ global[C04,C20] MSM4MessageTypes != nil && forallint(t, has(MSM4MessageTypes, t) == isMSM4(t))
 //@ global[C04,C20] MSM7MessageTypes != nil && forallint(t, has(MSM7MessageTypes, t) == isMSM7(t))
-//@ global[C06,C17,C07] isUTC(LocationUTC)
+//@ global[C06,C17] isUTC(LocationUTC)
 //@ global[C06,C17] GPSTimeOffset == 0 - 18000000000 && BeidouLeapSeconds == 0 - 4 && BeidouTimeOffset == 0 - 4000000000 && GlonassTimeOffset == 0 - 10800000000000
 
 //@ func MSM4
